@@ -17,7 +17,7 @@ import (
 type gateCtl struct {
 	mu      sync.Mutex
 	active  bool
-	syncGate bool // the gated call is a plain DB.Sync: park at sync.pagemap (and nowhere else)
+	syncGate string // the gated call is a plain DB.Sync: the one hook to park at (sync.pagemap / sync.verified), "" for a checkpoint
 	arrived chan string
 	release chan struct{}
 }
@@ -35,7 +35,7 @@ func init() {
 				return
 			}
 		}
-		if len(args) == 0 || (!stopAt[ev] && ev != "sync.pagemap") {
+		if len(args) == 0 || (!stopAt[ev] && ev != "sync.pagemap" && ev != "sync.verified") {
 			return
 		}
 		path, ok := args[0].(string)
@@ -48,7 +48,7 @@ func init() {
 		}
 		g := v.(*gateCtl)
 		g.mu.Lock()
-		act := g.active && (g.syncGate == (ev == "sync.pagemap"))
+		act := g.active && ((g.syncGate == "" && stopAt[ev]) || g.syncGate == ev)
 		g.mu.Unlock()
 		if !act {
 			return
@@ -66,14 +66,15 @@ type gatedCall struct {
 }
 
 func (r *Runner) gateStart(mode string) string {
-	g := &gateCtl{active: true, syncGate: mode == "SYNC", arrived: make(chan string), release: make(chan struct{})}
+	sg := map[string]string{"SYNC": "sync.pagemap", "SYNC0": "sync.verified"}[mode]
+	g := &gateCtl{active: true, syncGate: sg, arrived: make(chan string), release: make(chan struct{})}
 	gates.Store(r.dbPath, g)
 	ctx, cancel := context.WithCancel(r.ctx)
 	c := &gatedCall{g: g, done: make(chan error, 1), cancel: cancel}
 	r.gated = c
 	ls := r.ls
 	go func() {
-		if mode == "SYNC" { // a plain sync parked between building its page map and reading the page data (SyStart / CkStep)
+		if sg != "" { // a plain sync parked between building its page map and reading the page data (SyStart / CkStep)
 			c.done <- ls.Sync(ctx)
 			return
 		}
